@@ -16,6 +16,11 @@ RULE = ("Laws: generated boxes of dimension 1-4 (normal / point / flat / inverte
         "bit for bit, float mode with a tolerance relative to the magnitude of the terms. Conditioned laws (cotan, circumcentre, "
         "signed-angle antisymmetry, line intersection) are asserted only when the case passes an exact (Fraction) "
         "well-conditioning predicate; the rest is labelled 'degenerate' and only the universal laws are asserted. "
+        "Classes added after seeded misses: points carrying an integer type (int64 array / int Vec / list or tuple of Python ints) "
+        "against boxes with fractional corners (one case in four; every query on a point receives the same argument object, which is "
+        "compared with its snapshot; the returned projection must realise the returned distance); uniform power-of-two scales "
+        "2^-20..2^20 of boxes, vectors and triangles (exact modes stay exact, tolerances are relative); integer-typed Vec inputs of the "
+        "triangle / angle functions; every law call goes through a wrapper asserting its arguments and numpy.geterr() unchanged. "
         "Side effects: an operation history (2-25 ops over AABB.*, Vec.*, geometry.*, rotations.*, maths.* and a harness-level "
         "numpy.seterr change), arguments either fresh literals (list/tuple/float array/int array/Vec) or references to arrays "
         "and boxes created earlier in the same history (so boxes share caller arrays and other boxes' corners); about one op in "
@@ -23,7 +28,10 @@ RULE = ("Laws: generated boxes of dimension 1-4 (normal / point / flat / inverte
         "snapshot, numpy.geterr() with its previous value. non-trivial: (laws) the case is in the asserted, well-conditioned "
         "class of its sub-check; (history) a raising call is followed by at least one further call. distinct = distinct "
         "realised cases.")
-ASSUMPTIONS = ["coordinates are finite floats of magnitude <= 1e3 (no overflow / underflow is probed)",
+ASSUMPTIONS = ["coordinates are finite floats of magnitude <= 1e3 x a uniform scale in [2^-20, 2^20] (no overflow / underflow is probed); "
+               "integer-typed inputs have magnitude <= 4096 (no int64 overflow of cubic expressions is probed)",
+               "triangle functions are asserted for edge lengths >= 1e-4 (circumcenter inherits the absolute 1e-12 parallelism threshold "
+               "of intersect_2lines2D and fails below a size of about 1e-6: observed, not asserted)",
                "empty (inverted) boxes: only union containment, intersection = componentwise overlap, do_intersect and is_empty "
                "are asserted; projection / distance onto an empty set are not defined and not asserted",
                "Vec(ndarray) is a numpy view (documented: 'inherits from a numpy array'): in-place Vec methods (normalize, x/y/z "
@@ -108,16 +116,36 @@ def vec_of(x, n):
         return None
 
 
+def gcall(ctx, sig, f, *a, **kw):
+    """ctx.call + the side-effect oracle of the property on this single call: every argument object is bytewise unchanged and
+    numpy's error configuration is as before, whether the call returned or raised"""
+    snaps = [snap(x) for x in a]
+    err = np.geterr()
+    ok, val = ctx.call(sig, f, *a, **kw)
+    after = np.geterr()
+    if after != err:
+        np.seterr(**err)
+        ctx.check(False, "side-effect:numpy-errstate", f"{sig}: numpy.geterr() was {err}, is {after}")
+    for i, (x, sn) in enumerate(zip(a, snaps)):
+        ctx.check(snap(x) == sn, "side-effect:argument", f"{sig}: argument {i} is now {show(x)}")
+    return ok, val
+
+
 def make(vals, form):
     """fresh argument object of the given form from a list of numbers"""
     from mouette.geometry import Vec
-    if form == "list":
+    if form in ("list", "mixlist"):
         return [float(x) for x in vals]
     if form == "tuple":
         return tuple(float(x) for x in vals)
-    if form == "i8" and all(float(x) == int(x) for x in vals):
+    integral = all(float(x) == int(x) and abs(x) <= 4096 for x in vals)      # no int64 overflow of cubic expressions is probed
+    if form == "ilist":
+        return [int(x) for x in vals] if integral else [float(x) for x in vals]
+    if form == "ituple":
+        return tuple(int(x) for x in vals) if integral else tuple(float(x) for x in vals)
+    if form == "i8" and integral:
         return np.array([int(x) for x in vals], dtype=np.int64)
-    if form == "ivec" and all(float(x) == int(x) for x in vals):
+    if form == "ivec" and integral:
         return Vec([int(x) for x in vals])
     if form in ("vec", "ivec"):
         return Vec([float(x) for x in vals])
@@ -136,7 +164,22 @@ def coord(mode):
 
 
 MODES = ["int", "int", "dyadic", "float", "float"]
-FORMS = ["list", "tuple", "f8", "f8", "vec", "vec", "i8", "ivec"]
+FORMS = ["list", "tuple", "f8", "f8", "vec", "vec", "i8", "ivec", "ilist", "ituple"]
+INT_FORMS = ["i8", "ivec", "ilist", "ituple"]
+SCALES = [1.0] * 6 + [2.0 ** -10, 2.0 ** -20, 2.0 ** 10, 2.0 ** 20]          # powers of two: exact modes stay exact
+
+
+def is_int_typed(o):
+    """does the argument object carry an integer type (numpy int dtype or only Python ints)"""
+    if isinstance(o, np.ndarray):
+        return o.dtype.kind in "iu"
+    return isinstance(o, (list, tuple)) and len(o) > 0 and all(isinstance(x, int) for x in o)
+
+
+def scaled(x, s):
+    if isinstance(x, list):
+        return [scaled(y, s) for y in x]
+    return x * s if isinstance(x, float) else x
 
 
 def vec_st(mode, n):
@@ -174,13 +217,19 @@ def aabb_case(draw):
     b2 = draw(box_st(mode, dim, pool=b1[0] + b1[1]))
     delta = draw(st.sampled_from([1.0, 0.5, 2.0, 0.125])) if mode != "float" else draw(st.floats(1e-6, 50.0))
     pts = []
+    intpts = draw(st.integers(0, 3)) == 0            # integer-valued points (given with an integer type) against any box
     for _ in range(draw(st.integers(1, 5))):
         p = []
         for i in range(dim):
             lo, hi = min(b1[0][i], b1[1][i]), max(b1[0][i], b1[1][i])
             how = draw(st.sampled_from(["lo", "hi", "mid", "below", "above", "rand", "mid", "rand"]))
-            p.append({"lo": lo, "hi": hi, "mid": (lo + hi) / 2, "below": lo - delta, "above": hi + delta}.get(how)
-                     if how != "rand" else draw(coord(mode)))
+            if intpts:
+                k = float(draw(st.integers(0, 3)))
+                p.append({"lo": float(math.floor(lo)), "hi": float(math.ceil(hi)), "mid": float(round((lo + hi) / 2)), "below": math.floor(lo) - 1.0 - k,
+                          "above": math.ceil(hi) + 1.0 + k, "rand": float(draw(st.integers(-8, 8)))}[how])
+            else:
+                p.append({"lo": lo, "hi": hi, "mid": (lo + hi) / 2, "below": lo - delta, "above": hi + delta}.get(how)
+                         if how != "rand" else draw(coord(mode)))
         pts.append(p)
     cloud = draw(st.lists(vec_st(mode, dim), min_size=1, max_size=8))
     padc = draw(st.sampled_from([0.0, 0.0, 0.5, 1.0, 0.25])) if mode != "float" else draw(st.floats(0, 10.0))
@@ -188,8 +237,10 @@ def aabb_case(draw):
         pad = draw(st.sampled_from([0.0, 0.5, 1.0, 2.0, -1.0, -0.5])) if mode != "float" else draw(st.floats(-5, 5))
     else:
         pad = draw(vec_st(mode, dim))
-    return {"mode": mode, "dim": dim, "b1": b1, "b2": b2, "pts": pts, "cloud": cloud, "cloud_pad": padc, "pad": pad,
-            "form": draw(st.sampled_from(FORMS)), "pform": draw(st.sampled_from(FORMS)),
+    s = 1.0 if intpts else draw(st.sampled_from(SCALES))
+    return {"mode": mode, "dim": dim, "b1": scaled(b1, s), "b2": scaled(b2, s), "pts": scaled(pts, s), "cloud": scaled(cloud, s),
+            "cloud_pad": padc * s, "pad": scaled(pad, s), "scale": s,
+            "form": draw(st.sampled_from(FORMS)), "pform": draw(st.sampled_from(INT_FORMS if intpts else FORMS)),
             "cform": draw(st.sampled_from(["list", "f8", "vecs", "i8"]))}
 
 
@@ -198,10 +249,10 @@ def fn_aabb(case, ctx):
     mode, dim = case["mode"], case["dim"]
     exact = mode != "float"
     form, pform = case["form"], case["pform"]
-    ctx.label("mode=" + mode, "dim=%d" % dim, "form=" + form)
+    ctx.label("mode=" + mode, "dim=%d" % dim, "form=" + form, "scale=%g" % case.get("scale", 1.0))
 
     def newbox(b):
-        ok, bb = ctx.call("AABB.__init__", AABB, make(b[0], form), make(b[1], form))
+        ok, bb = gcall(ctx, "AABB.__init__", AABB, make(b[0], form), make(b[1], form))
         return bb if ok else None
 
     def corners(bb, sig):
@@ -234,16 +285,16 @@ def fn_aabb(case, ctx):
             return
         ctx.check(np.array_equal(glo, lo) and np.array_equal(ghi, hi), "AABB.__init__:corners", f"{nm}: AABB({lo},{hi}) has mini={glo} maxi={ghi}")
         ctx.check(bb.dim == dim, "AABB.dim", f"{nm}: dim={bb.dim!r} expected {dim}")
-        ok, sp = ctx.call("AABB.span", lambda: bb.span)
+        ok, sp = gcall(ctx, "AABB.span", lambda: bb.span)
         if ok:
             ctx.check(vec_of(sp, dim) is not None and same(sp, hi - lo), "AABB.span", f"{nm}: span={sp!r} expected {hi - lo}")
-        ok, ce = ctx.call("AABB.center", lambda: bb.center)
+        ok, ce = gcall(ctx, "AABB.center", lambda: bb.center)
         if ok:
             ctx.check(vec_of(ce, dim) is not None and same(ce, (lo + hi) / 2), "AABB.center", f"{nm}: center={ce!r} expected {(lo + hi) / 2}")
-        ok, em = ctx.call("AABB.is_empty", bb.is_empty)
+        ok, em = gcall(ctx, "AABB.is_empty", bb.is_empty)
         if ok:
             ctx.check(bool(em) == bool(np.any(lo >= hi)), "AABB.is_empty", f"{nm}: is_empty={em} for [{lo},{hi}]")
-        ok, r = ctx.call("AABB.__repr__", repr, bb)
+        ok, r = gcall(ctx, "AABB.__repr__", repr, bb)
 
     # --- points against b1
     n_out = n_face = n_in = 0
@@ -257,21 +308,28 @@ def fn_aabb(case, ctx):
             n_out += not inside_closed
             n_face += on_face
             n_in += inside_half
-            ok, c = ctx.call("AABB.contains_point", box1.contains_point, make(p, pform))
+            parg = make(p, pform)                # the same object is handed to every query on this point
+            psnap = snap(parg)
+            frac_box = bool(np.any(L1 != np.round(L1)) or np.any(H1 != np.round(H1)))
+            if is_int_typed(parg):
+                ctx.label("pt=int-typed", "pt=int-typed,box-fractional" if frac_box else "pt=int-typed,box-integral")
+                if frac_box and not inside_closed:
+                    ctx.label("pt=int-typed,outside-fractional-box")
+            ok, c = gcall(ctx, "AABB.contains_point", box1.contains_point, parg)
             if ok:
                 ctx.check(bool(c) == inside_half, "AABB.contains_point",
                           f"contains_point({p}) = {c} for box [{L1},{H1}] (documented: min inclusive, max exclusive)")
-            ok, pr = ctx.call("AABB.project", box1.project, make(p, pform))
+            ok, pr = gcall(ctx, "AABB.project", box1.project, parg)
             ref_pr = np.minimum(np.maximum(P, L1), H1)
             if ok:
                 prv = vec_of(pr, dim)
                 if ctx.check(prv is not None, "AABB.project:shape", f"project({p}) = {pr!r}"):
                     ctx.check(bool(np.all(L1 <= prv) and np.all(prv <= H1)), "AABB.project:inside",
                               f"project({p}) = {prv} not in closed box [{L1},{H1}]")
-                    ctx.check(np.array_equal(prv, ref_pr), "AABB.project:closest", f"project({p}) = {prv}, closest point is {ref_pr}")
+                    ctx.check(np.array_equal(prv, ref_pr), "AABB.project:closest", f"project({show(parg)}) = {prv}, closest point of [{L1},{H1}] is {ref_pr}")
             diff = [max(l - x, x - h, Fr(0)) for x, l, h in zip(fp, fl, fh)]      # == |p - clamp(p)| componentwise
             for which in ("l2", "l1", "linf"):
-                ok, d = ctx.call("AABB.distance", box1.distance, make(p, pform), which)
+                ok, d = gcall(ctx, "AABB.distance", box1.distance, parg, which)
                 if not ok:
                     continue
                 dv = real(d)
@@ -284,14 +342,22 @@ def fn_aabb(case, ctx):
                     ctx.check(dv == 0, "AABB.distance:contained", f"distance({p},{which}) = {dv!r} for a point of the closed box [{L1},{H1}]")
                 elif exact:
                     ctx.check(dv > 0, "AABB.distance:outside", f"distance({p},{which}) = {dv!r} for a point outside [{L1},{H1}]")
+                if ok and pr is not None and vec_of(pr, dim) is not None:
+                    # the statement itself: the returned projection realises the returned distance
+                    back = float(fnorm(fsub(fp, fv(vec_of(pr, dim))), which))
+                    ctx.check(abs(dv - back) <= 1e-12 * max(dv, back), "AABB.distance:realised-by-projection",
+                              f"distance({show(parg)},{which}) = {dv!r} but ||p - project(p)|| = {back!r} with project(p) = {pr!r}, box [{L1},{H1}]")
+            ctx.check(snap(parg) == psnap, "AABB:query-changes-point", f"point argument {p} became {show(parg)} after contains_point/project/distance")
         ctx.label("pts:out" if n_out else "pts:no-out", "pts:face" if n_face else "pts:no-face")
         if n_out and (n_face or n_in):
             ctx.nontrivial()
     else:
         ctx.label("pts:skipped-empty-box")
+    for bb, lo, hi, nm in ((box1, L1, H1, "b1"), (box2, L2, H2, "b2")):
+        ctx.check(np.array_equal(np.asarray(bb.mini, float), lo) and np.array_equal(np.asarray(bb.maxi, float), hi), "AABB:query-changes-box", f"{nm} is now {bb!r} after point queries")
 
     # --- two boxes
-    ok, un = ctx.call("AABB.union", AABB.union, box1, box2)
+    ok, un = gcall(ctx, "AABB.union", AABB.union, box1, box2)
     if ok and ctx.check(isinstance(un, AABB), "AABB.union:type", f"{un!r}"):
         ulo, uhi = corners(un, "AABB.union")
         if ulo is not None:
@@ -300,27 +366,30 @@ def fn_aabb(case, ctx):
             if not inv1 and not inv2:
                 ctx.check(np.array_equal(ulo, np.minimum(L1, L2)) and np.array_equal(uhi, np.maximum(H1, H2)), "AABB.union:tight",
                           f"union of [{L1},{H1}] and [{L2},{H2}] = [{ulo},{uhi}]")
-        ok, un2 = ctx.call("AABB.__or__", lambda: box1 | box2)
+        ok, un2 = gcall(ctx, "AABB.__or__", lambda: box1 | box2)
         if ok and ulo is not None and isinstance(un2, AABB):
             ctx.check(np.array_equal(np.asarray(un2.mini), ulo) and np.array_equal(np.asarray(un2.maxi), uhi), "AABB.__or__", "b1|b2 differs from union(b1,b2)")
     ilo_ref, ihi_ref = np.maximum(L1, L2), np.minimum(H1, H2)
-    ok, it = ctx.call("AABB.intersection", AABB.intersection, box1, box2)
+    ok, it = gcall(ctx, "AABB.intersection", AABB.intersection, box1, box2)
     if ok and ctx.check(isinstance(it, AABB), "AABB.intersection:type", f"{it!r}"):
         ilo, ihi = corners(it, "AABB.intersection")
         if ilo is not None:
             ctx.check(np.array_equal(ilo, ilo_ref) and np.array_equal(ihi, ihi_ref), "AABB.intersection:value",
                       f"intersection of [{L1},{H1}] and [{L2},{H2}] = [{ilo},{ihi}], componentwise overlap is [{ilo_ref},{ihi_ref}]")
-        ok, it2 = ctx.call("AABB.__and__", lambda: box1 & box2)
+        ok, it2 = gcall(ctx, "AABB.__and__", lambda: box1 & box2)
         if ok and ilo is not None and isinstance(it2, AABB):
             ctx.check(np.array_equal(np.asarray(it2.mini), ilo) and np.array_equal(np.asarray(it2.maxi), ihi), "AABB.__and__", "b1&b2 differs from intersection(b1,b2)")
     overlap = all(h >= l for l, h in zip(ilo_ref, ihi_ref))
     touching = overlap and any(h == l for l, h in zip(ilo_ref, ihi_ref))
     ctx.label("pair=" + ("inverted" if (inv1 or inv2) else "touching" if touching else "overlap" if overlap else "disjoint"))
     for a, b, nm in ((box1, box2, "b1,b2"), (box2, box1, "b2,b1")):
-        ok, di = ctx.call("AABB.do_intersect", AABB.do_intersect, a, b)
+        ok, di = gcall(ctx, "AABB.do_intersect", AABB.do_intersect, a, b)
         if ok:
             ctx.check(isinstance(di, (bool, np.bool_)) and bool(di) == overlap, "AABB.do_intersect",
                       f"do_intersect({nm}) = {di!r} for [{L1},{H1}] and [{L2},{H2}]: overlap extents {ihi_ref - ilo_ref}")
+
+    for bb, lo, hi, nm in ((box1, L1, H1, "b1"), (box2, L2, H2, "b2")):
+        ctx.check(np.array_equal(np.asarray(bb.mini, float), lo) and np.array_equal(np.asarray(bb.maxi, float), hi), "AABB:binary-op-changes-box", f"{nm} is now {bb!r} after union/intersection/do_intersect")
 
     # --- box of a point set
     cloud = case["cloud"]
@@ -335,7 +404,7 @@ def fn_aabb(case, ctx):
     else:
         arg = [list(map(float, p)) for p in cloud]
     for padc in (None, case["cloud_pad"]):
-        ok, cb = (ctx.call("AABB.of_points", AABB.of_points, arg) if padc is None else ctx.call("AABB.of_points", AABB.of_points, arg, float(padc)))
+        ok, cb = (gcall(ctx, "AABB.of_points", AABB.of_points, arg) if padc is None else gcall(ctx, "AABB.of_points", AABB.of_points, arg, float(padc)))
         if ok and ctx.check(isinstance(cb, AABB), "AABB.of_points:type", f"{cb!r}"):
             clo, chi = corners(cb, "AABB.of_points")
             if clo is not None:
@@ -344,6 +413,20 @@ def fn_aabb(case, ctx):
                           f"of_points({cloud}, padding={pd}) = [{clo},{chi}], expected [{C.min(axis=0) - pd},{C.max(axis=0) + pd}]")
                 if pd == 0:
                     ctx.check(all(bool(np.all(clo <= q) and np.all(q <= chi)) for q in C), "AABB.of_points:contains", f"a point of {cloud} outside [{clo},{chi}]")
+
+    if dim == 3:
+        from vlib.build import pointcloud_from, coords
+        pc = pointcloud_from(cloud)
+        before = coords(pc).tobytes()
+        for padc in (None, case["cloud_pad"]):
+            ok, cb = (gcall(ctx, "AABB.of_mesh", AABB.of_mesh, pc) if padc is None else gcall(ctx, "AABB.of_mesh", AABB.of_mesh, pc, float(padc)))
+            if ok and ctx.check(isinstance(cb, AABB), "AABB.of_mesh:type", f"{cb!r}"):
+                clo, chi = corners(cb, "AABB.of_mesh")
+                if clo is not None:
+                    pd = 0.0 if padc is None else float(padc)
+                    ctx.check(same(clo, C.min(axis=0) - pd) and same(chi, C.max(axis=0) + pd), "AABB.of_mesh:tight",
+                              f"of_mesh(point cloud {cloud}, padding={pd}) = [{clo},{chi}], expected [{C.min(axis=0) - pd},{C.max(axis=0) + pd}]")
+        ctx.check(coords(pc).tobytes() == before, "AABB.of_mesh:changes-mesh", "mesh vertices changed by of_mesh")
 
     # --- pad on a fresh box (receiver is the box; the law is the documented arithmetic)
     pad = case["pad"]
@@ -354,7 +437,7 @@ def fn_aabb(case, ctx):
         else:
             parg, pv = float(pad), np.full(dim, max(float(pad), 0.0))
         ctx.label("pad=" + ("vector" if isinstance(pad, list) else "scalar"), "pad-int-box" if form in ("i8", "ivec") and mode == "int" else "pad-float-box")
-        ok, r = ctx.call("AABB.pad", pb.pad, parg)
+        ok, r = gcall(ctx, "AABB.pad", pb.pad, parg)
         if ok:
             plo, phi = corners(pb, "AABB.pad")
             if plo is not None:
@@ -363,17 +446,17 @@ def fn_aabb(case, ctx):
 
     # --- canonical boxes
     for centered in (False, True):
-        ok, uc = ctx.call("AABB.unit_cube", AABB.unit_cube, dim, centered)
+        ok, uc = gcall(ctx, "AABB.unit_cube", AABB.unit_cube, dim, centered)
         if ok and isinstance(uc, AABB):
             lo = -0.5 if centered else 0.0
             ctx.check(np.array_equal(np.asarray(uc.mini), np.full(dim, lo)) and np.array_equal(np.asarray(uc.maxi), np.full(dim, lo + 1)), "AABB.unit_cube", f"{uc!r}")
-    ok, inf = ctx.call("AABB.infinite", AABB.infinite, dim)
+    ok, inf = gcall(ctx, "AABB.infinite", AABB.infinite, dim)
     if ok and isinstance(inf, AABB):
         for p in case["pts"][:2]:
-            ok, c = ctx.call("AABB.infinite:contains", inf.contains_point, make(p, pform))
+            ok, c = gcall(ctx, "AABB.infinite:contains", inf.contains_point, make(p, pform))
             if ok:
                 ctx.check(bool(c), "AABB.infinite:contains", f"infinite box does not contain {p}")
-            ok, d = ctx.call("AABB.infinite:distance", inf.distance, make(p, pform))
+            ok, d = gcall(ctx, "AABB.infinite:distance", inf.distance, make(p, pform))
             if ok:
                 ctx.check(real(d) == 0, "AABB.infinite:distance", f"distance to the infinite box = {d!r}")
 
@@ -407,7 +490,9 @@ def vector_case(draw):
     B = {"free": None, "zero": [0.0, 0.0, 0.0], "equal": list(A)}.get(how) if how != "parallel" else [2.0 * x for x in A]
     if B is None:
         B = draw(v3)
-    return {"mode": mode, "A": A, "B": B, "C": draw(v3), "a": draw(vec_st(mode, 2)), "b": draw(vec_st(mode, 2)), "c": draw(vec_st(mode, 2)),
+    s = draw(st.sampled_from(SCALES))
+    return {"mode": mode, "A": scaled(A, s), "B": scaled(B, s), "C": scaled(draw(v3), s), "a": scaled(draw(vec_st(mode, 2)), s),
+            "b": scaled(draw(vec_st(mode, 2)), s), "c": scaled(draw(vec_st(mode, 2)), s), "scale": s,
             "form": draw(st.sampled_from(FORMS)), "n": draw(st.integers(1, 6)), "set": draw(coord(mode))}
 
 
@@ -416,7 +501,7 @@ def fn_vector(case, ctx):
     from mouette.geometry import Vec
     mode, form = case["mode"], case["form"]
     exact = mode != "float"
-    ctx.label("mode=" + mode, "form=" + form)
+    ctx.label("mode=" + mode, "form=" + form, "scale=%g" % case.get("scale", 1.0))
     A, B, C, a, b, c = (case[k] for k in "ABCabc")
     fA, fB, fC, fa, fb, fc = (fv(case[k]) for k in "ABCabc")
     mk = lambda v: make(v, form)
@@ -438,7 +523,7 @@ def fn_vector(case, ctx):
 
     # cross
     for (U, V, fU, fV, nm) in ((A, B, fA, fB, "A,B"), (B, A, fB, fA, "B,A"), (A, A, fA, fA, "A,A")):
-        ok, cr = ctx.call("cross", geom.cross, mk(U), mk(V))
+        ok, cr = gcall(ctx, "cross", geom.cross, mk(U), mk(V))
         if ok:
             cv = vec_of(cr, 3)
             if ctx.check(cv is not None and isinstance(cr, Vec), "cross:type", f"cross({nm}) = {cr!r}"):
@@ -447,35 +532,36 @@ def fn_vector(case, ctx):
                 for i in range(3):
                     cmp_scalar("cross", cv[i], ref[i], mags[i], f"cross({U},{V})[{i}]")
     # determinants
-    ok, d = ctx.call("det_2x2", geom.det_2x2, mk(a), mk(b))
+    ok, d = gcall(ctx, "det_2x2", geom.det_2x2, mk(a), mk(b))
     if ok:
         cmp_scalar("det_2x2", d, fdet2(fa, fb), abs(fa[0] * fb[1]) + abs(fa[1] * fb[0]), f"det_2x2({a},{b})")
-    ok, d = ctx.call("det_2x2", geom.det_2x2, complex(a[0], a[1]), complex(b[0], b[1]))
+    ok, d = gcall(ctx, "det_2x2", geom.det_2x2, complex(a[0], a[1]), complex(b[0], b[1]))
     if ok:
         cmp_scalar("det_2x2:complex", d, fdet2(fa, fb), abs(fa[0] * fb[1]) + abs(fa[1] * fb[0]), f"det_2x2(complex{tuple(a)},complex{tuple(b)})")
-    ok, d = ctx.call("det_2x2", geom.det_2x2, complex(a[0], a[1]), mk(b))
+    ok, d = gcall(ctx, "det_2x2", geom.det_2x2, complex(a[0], a[1]), mk(b))
     if ok:
         cmp_scalar("det_2x2:mixed", d, fdet2(fa, fb), abs(fa[0] * fb[1]) + abs(fa[1] * fb[0]), f"det_2x2(complex{tuple(a)},{b})")
     ref3 = fdet3(fA, fB, fC)
     mag3 = sum(abs(fA[i] * fB[j] * fC[k]) for i, j, k in ((0, 1, 2), (1, 2, 0), (2, 0, 1), (0, 2, 1), (1, 0, 2), (2, 1, 0)))
-    ok, d = ctx.call("det_3x3", geom.det_3x3, mk(A), mk(B), mk(C))
+    ok, d = gcall(ctx, "det_3x3", geom.det_3x3, mk(A), mk(B), mk(C))
     if ok:
         cmp_scalar("det_3x3", d, ref3, 2 * mag3, f"det_3x3({A},{B},{C})")
-    ok, d = ctx.call("det_3x3", geom.det_3x3, np.array([A, B, C], dtype=float))
+    ok, d = gcall(ctx, "det_3x3", geom.det_3x3, np.array([A, B, C], dtype=float))
     if ok:
         cmp_scalar("det_3x3:matrix", d, ref3, 2 * mag3, f"det_3x3(matrix rows {A},{B},{C})")
-    ok, d = ctx.call("det_3x3", geom.det_3x3, np.array([A, B, C], dtype=float).T.copy())
+    ok, d = gcall(ctx, "det_3x3", geom.det_3x3, np.array([A, B, C], dtype=float).T.copy())
     if ok:
         cmp_scalar("det_3x3:matrix", d, ref3, 2 * mag3, f"det_3x3(matrix columns {A},{B},{C})")
     # dot, norms, distances
-    ok, d = ctx.call("dot", geom.dot, mk(A), mk(B))
+    ok, d = gcall(ctx, "dot", geom.dot, mk(A), mk(B))
     if ok:
         cmp_scalar("dot", d, fdot(fA, fB), sum(abs(x * y) for x, y in zip(fA, fB)), f"dot({A},{B})")
-    arrA, arrB = make(A, "vec" if form in ("list", "tuple") else form), make(B, "vec" if form in ("list", "tuple") else form)
+    aform = {"list": "vec", "tuple": "vec", "ilist": "ivec", "ituple": "ivec"}.get(form, form)      # geometry.norm documents an ndarray
+    arrA, arrB = make(A, aform), make(B, aform)
     for which in ("l2", "l1", "linf"):
         for nm, f, ref in (("norm", lambda: geom.norm(arrA, which), fnorm(fA, which)), ("Vec.norm", lambda: Vec(mk(A)).norm(which), fnorm(fA, which)),
                            ("distance", lambda: geom.distance(arrA, arrB, which), fnorm(fsub(fB, fA), which))):
-            ok, d = ctx.call(nm, f)
+            ok, d = gcall(ctx, nm, f)
             if ok:
                 g = real(d)
                 if ctx.check(g is not None, nm + ":type", f"{nm}(..., {which}) = {d!r}"):
@@ -483,14 +569,14 @@ def fn_vector(case, ctx):
                     good = (g == ref) if (exact and which != "l2") else abs(g - ref) <= 1e-12 * max(ref, 1e-300) or (not exact and abs(g - ref) <= 4 * EPS * float(fnorm(fA, "l1") + fnorm(fB, "l1")))
                     ctx.check(good, nm, f"{nm} [{which}] of A={A} (B={B}) = {g!r}, expected {ref!r}")
     # areas
-    ok, d = ctx.call("triangle_area", geom.triangle_area, Vec(mk(A)), Vec(mk(B)), Vec(mk(C)))
+    ok, d = gcall(ctx, "triangle_area", geom.triangle_area, Vec(mk(A)), Vec(mk(B)), Vec(mk(C)))
     if ok:
         g = real(d)
         crf = fcross(fsub(fB, fA), fsub(fC, fA))
         ref = fsqrt(fdot(crf, crf)) / 2
         ctx.check(g is not None and abs(g - ref) <= 1e-12 * max(ref, 1e-300) + (0 if exact else 16 * EPS * (float(fnorm(fA, "linf") + fnorm(fB, "linf") + fnorm(fC, "linf")) ** 2)),
                   "triangle_area", f"triangle_area({A},{B},{C}) = {d!r}, |AB x AC|/2 = {ref!r}")
-    ok, d = ctx.call("triangle_area_2D", geom.triangle_area_2D, Vec(mk(a)), Vec(mk(b)), Vec(mk(c)))
+    ok, d = gcall(ctx, "triangle_area_2D", geom.triangle_area_2D, Vec(mk(a)), Vec(mk(b)), Vec(mk(c)))
     if ok:
         u, w = fsub(fb, fa), fsub(fc, fa)
         ref = abs(fdet2(u, w)) / 2
@@ -507,8 +593,8 @@ def fn_vector(case, ctx):
         ctx.check(geom.sign0(x) == (1 if x >= 0 else -1), "sign0", f"sign0({x}) = {geom.sign0(x)}")
 
     # --- Vec API
-    ok, v = ctx.call("Vec", Vec, mk(A))
-    ok2, v2 = ctx.call("Vec", Vec, *[float(x) for x in A])
+    ok, v = gcall(ctx, "Vec", Vec, mk(A))
+    ok2, v2 = gcall(ctx, "Vec", Vec, *[float(x) for x in A])
     if ok and ok2:
         ctx.check(isinstance(v, Vec) and v.shape == (3,) and isinstance(v2, Vec) and v2.shape == (3,) and np.array_equal(v, np.array(A)) and np.array_equal(v2, np.array(A)),
                   "Vec:ctor", f"Vec({A}) = {v!r}, Vec(*{A}) = {v2!r}")
@@ -518,14 +604,14 @@ def fn_vector(case, ctx):
             setattr(w, nm, case["set"])
             expect = [case["set"]] * (i + 1) + list(A[i + 1:])
             ctx.check(np.array_equal(np.asarray(w), np.array(expect)), "Vec:setter", f"after setting {nm}: {w!r}, expected {expect}")
-        ok, o = ctx.call("Vec.outer", v.outer, mk(B))
+        ok, o = gcall(ctx, "Vec.outer", v.outer, mk(B))
         if ok:
             o = np.asarray(o)
             if ctx.check(o.shape == (3, 3), "Vec.outer:shape", f"{o!r}"):
                 for i in range(3):
                     for j in range(3):
                         cmp_scalar("Vec.outer", o[i, j], fA[i] * fB[j], abs(fA[i] * fB[j]), f"outer({A},{B})[{i},{j}]")
-        ok, d = ctx.call("Vec.dot", v.dot, mk(B))
+        ok, d = gcall(ctx, "Vec.dot", v.dot, mk(B))
         if ok:
             cmp_scalar("Vec.dot", d, fdot(fA, fB), sum(abs(x * y) for x, y in zip(fA, fB)), f"Vec({A}).dot({B})")
     n = case["n"]
@@ -542,13 +628,13 @@ def fn_vector(case, ctx):
             nrm = float(fnorm(fA, which))
             expect = np.array(A, float) / nrm
             src = mk(A)
-            ok, u = ctx.call("Vec.normalized", Vec.normalized, src, which)
+            ok, u = gcall(ctx, "Vec.normalized", Vec.normalized, src, which)
             if ok:
                 uv = vec_of(u, 3)
                 ctx.check(uv is not None and isinstance(u, Vec) and bool(np.all(np.abs(uv - expect) <= 1e-12)), "Vec.normalized",
                           f"normalized({A},{which}) = {u!r}, expected {expect}")
             w = Vec([float(x) for x in A])
-            ok, _ = ctx.call("Vec.normalize", w.normalize, which)
+            ok, _ = gcall(ctx, "Vec.normalize", w.normalize, which)
             if ok:
                 ctx.check(bool(np.all(np.abs(np.asarray(w) - expect) <= 1e-12)), "Vec.normalize", f"Vec({A}).normalize({which}) -> {w!r}, expected {expect}")
 
@@ -600,9 +686,13 @@ def shape_case(draw):
         quad = [[-q[0], -q[1]], [q[2], -q[3]], [q[4], q[5]], [-q[6], q[7]]]
         if draw(st.booleans()):
             quad.reverse()
-    return {"mode": mode, "tri": draw(triangle_st(mode)), "p1": draw(v2), "d1": d1, "p2": draw(v2), "d2": d2, "dim3": draw(st.booleans()),
-            "P": draw(v2), "SA": draw(v2), "SB": draw(st.one_of(v2, v2, v2, v2, st.just(None))),
-            "Q": draw(v3), "N": draw(v3), "O": draw(v3),
+    # uniform scale of the triangle, the segment query and the plane query (scale covariant); the line intersection keeps unit scale
+    # because of its documented absolute parallelism threshold
+    s = draw(st.sampled_from([1.0] * 6 + [2.0 ** -10, 2.0 ** 10, 2.0 ** 17]))
+    SB = draw(st.one_of(v2, v2, v2, v2, st.just(None)))
+    return {"mode": mode, "tri": scaled(draw(triangle_st(mode)), s), "p1": draw(v2), "d1": d1, "p2": draw(v2), "d2": d2, "dim3": draw(st.booleans()),
+            "P": scaled(draw(v2), s), "SA": scaled(draw(v2), s), "SB": scaled(SB, s) if SB is not None else None,
+            "Q": scaled(draw(v3), s), "N": draw(v3), "O": scaled(draw(v3), s), "scale": s, "ityped": draw(st.integers(0, 3)) == 0,
             "quad": quad, "plane": draw(st.integers(0, 2)), "level": draw(coord(mode))}
 
 
@@ -610,8 +700,11 @@ def fn_shape(case, ctx):
     from mouette import geometry as geom
     from mouette.geometry import Vec
     mode = case["mode"]
-    ctx.label("mode=" + mode)
-    V = lambda v: Vec([float(x) for x in v])
+    ctx.label("mode=" + mode, "scale=%g" % case.get("scale", 1.0))
+    ityped = bool(case.get("ityped"))
+    V = lambda v: make(v, "ivec" if ityped else "vec")            # integer-typed Vec when requested and all coordinates are integers
+    if ityped and all(float(x) == int(x) and abs(x) <= 4096 for p_ in case["tri"] for x in p_):
+        ctx.label("tri=int-typed")
 
     # ---- line intersection
     p1, d1, p2, d2 = case["p1"], case["d1"], case["p2"], case["d2"]
@@ -619,7 +712,7 @@ def fn_shape(case, ctx):
     ext = [0.0] if case["dim3"] else []
     det = fdet2(g1, g2)
     n1, n2 = fsqrt(fdot(g1, g1)), fsqrt(fdot(g2, g2))
-    ok, X = ctx.call("intersect_2lines2D", geom.intersect_2lines2D, V(p1 + ext), V(d1 + ext), V(p2 + ext), V(d2 + ext))
+    ok, X = gcall(ctx, "intersect_2lines2D", geom.intersect_2lines2D, V(p1 + ext), V(d1 + ext), V(p2 + ext), V(d2 + ext))
     if ok:
         if det == 0:
             ctx.label("lines=parallel")
@@ -644,7 +737,7 @@ def fn_shape(case, ctx):
     fP, fa, fb = fv(P), fv(SA), fv(SB)
     seg = fsub(fb, fa)
     l2 = fdot(seg, seg)
-    if l2 == 0 or float(l2) >= 1e-6:
+    if l2 == 0 or float(l2) >= 1e-10:
         if l2 == 0:
             ctx.label("segment=point")
             refd = fsqrt(fdot(fsub(fP, fa), fsub(fP, fa)))
@@ -653,10 +746,10 @@ def fn_shape(case, ctx):
             pr = [fa[i] + t * seg[i] for i in range(2)]
             refd = fsqrt(fdot(fsub(fP, pr), fsub(fP, pr)))
             ctx.label("segment=end" if t in (0, 1) else "segment=interior")
-        ok, d = ctx.call("distance_to_segment2D", geom.distance_to_segment2D, V(P + ext), V(SA + ext), V(SB + ext))
+        ok, d = gcall(ctx, "distance_to_segment2D", geom.distance_to_segment2D, V(P + ext), V(SA + ext), V(SB + ext))
         if ok:
             g = real(d)
-            scale = max(1.0, float(fnorm(fP, "linf")), float(fnorm(fa, "linf")), float(fnorm(fb, "linf")))
+            scale = max(1e-300, float(fnorm(fP, "linf")), float(fnorm(fa, "linf")), float(fnorm(fb, "linf")))
             ctx.check(g is not None and abs(g - refd) <= 1e-9 * scale, "distance_to_segment2D", f"distance_to_segment2D({P},[{SA},{SB}]) = {d!r}, expected {refd!r}")
 
     # ---- projection onto a plane
@@ -664,13 +757,13 @@ def fn_shape(case, ctx):
     fQ, fN, fO = fv(Q), fv(N), fv(O)
     nn = fdot(fN, fN)
     if float(nn) >= 1e-8:
-        ok, R = ctx.call("project_to_plane", geom.project_to_plane, V(Q), V(N), V(O))
+        ok, R = gcall(ctx, "project_to_plane", geom.project_to_plane, V(Q), V(N), V(O))
         if ok:
             rv = vec_of(R, 3)
             if ctx.check(rv is not None, "project_to_plane:type", f"{R!r}"):
                 k = fdot(fsub(fQ, fO), fN) / nn
                 ref = np.array([float(fQ[i] - k * fN[i]) for i in range(3)])
-                scale = max(1.0, float(fnorm(fQ, "linf")), float(fnorm(fO, "linf")))
+                scale = max(1e-300, float(fnorm(fQ, "linf")), float(fnorm(fO, "linf")))
                 ctx.check(bool(np.all(np.abs(rv - ref) <= 1e-11 * scale)), "project_to_plane", f"project_to_plane({Q}, N={N}, orig={O}) = {rv}, expected {ref}")
     else:
         ctx.label("plane=zero-normal")
@@ -688,7 +781,7 @@ def fn_shape(case, ctx):
             c3 = [p[0], p[1]]
             c3.insert(ax, lvl)
             pts3.append(V(c3))
-        ok, d = ctx.call("quad_area", geom.quad_area, *pts3)
+        ok, d = gcall(ctx, "quad_area", geom.quad_area, *pts3)
         if ok:
             g = real(d)
             ctx.check(g is not None and abs(g - float(area)) <= 1e-12 * max(1.0, float(area)), "quad_area", f"quad_area of planar convex {q} (plane axis {ax} = {lvl}) = {d!r}, shoelace area {float(area)!r}")
@@ -699,13 +792,13 @@ def fn_shape(case, ctx):
     A, B, C = case["tri"]
     fA, fB, fC = fv(A), fv(B), fv(C)
     sin2, L, S = tri_condition(fA, fB, fC)
-    well = sin2 >= Fr(1, 100) and L >= 1e-2 and S <= 1e3 * L        # smallest angle >= ~5.7 deg, coordinates not huge w.r.t. size
+    well = sin2 >= Fr(1, 100) and L >= 1e-4 and S <= 1e3 * L        # smallest angle >= ~5.7 deg, coordinates not huge w.r.t. size
     ctx.label("tri=well" if well else "tri=degenerate" if sin2 == 0 else "tri=thin")
     if not well:
         return
     ctx.nontrivial()
     nA, nB, nC = np.array(A, float), np.array(B, float), np.array(C, float)
-    ok, basis = ctx.call("face_basis", geom.face_basis, V(A), V(B), V(C))
+    ok, basis = gcall(ctx, "face_basis", geom.face_basis, V(A), V(B), V(C))
     if ok:
         good = isinstance(basis, tuple) and len(basis) == 3 and all(vec_of(x, 3) is not None for x in basis)
         if ctx.check(good, "face_basis:type", f"{basis!r}"):
@@ -717,7 +810,7 @@ def fn_shape(case, ctx):
             nrm = nrm / np.linalg.norm(nrm)
             ctx.check(bool(np.all(np.abs(Xb - ab) <= 1e-9)) and bool(np.all(np.abs(Zb - nrm) <= 1e-8)), "face_basis:aligned",
                       f"face_basis({A},{B},{C}): X={Xb} (AB direction {ab}), Z={Zb} (normal {nrm})")
-        ok2, basis2 = ctx.call("face_basis", geom.face_basis, [V(A), V(B), V(C)])
+        ok2, basis2 = gcall(ctx, "face_basis", geom.face_basis, [V(A), V(B), V(C)])
         if ok2 and good and isinstance(basis2, tuple) and len(basis2) == 3:
             ctx.check(all(np.array_equal(np.asarray(x), np.asarray(y)) for x, y in zip(basis, basis2)), "face_basis:list-form", "face_basis(A,B,C) != face_basis([A,B,C])")
     la, lb, lc = (fsqrt(fdot(fsub(p, q_), fsub(p, q_))) for p, q_ in ((fB, fC), (fC, fA), (fA, fB)))
@@ -726,14 +819,14 @@ def fn_shape(case, ctx):
     R_ref = la * lb * lc / (4 * K)
     r_ref = K / ((la + lb + lc) / 2)
     for perm in ((A, B, C), (B, C, A), (C, A, B), (A, C, B)):
-        ok, ar = ctx.call("aspect_ratio", geom.aspect_ratio, *[V(p) for p in perm])
+        ok, ar = gcall(ctx, "aspect_ratio", geom.aspect_ratio, *[V(p) for p in perm])
         if ok:
             g = real(ar)
             ref = R_ref / (2 * r_ref)
             # s - a is computed by cancellation: relative error ~ eps * (1/sin^2)
             ctx.check(g is not None and abs(g - ref) <= 1e-9 * ref / float(sin2), "aspect_ratio", f"aspect_ratio({perm}) = {ar!r}, circumradius/(2 inradius) = {ref!r}")
     for perm in ((A, B, C), (B, C, A), (C, B, A)):
-        ok, cc = ctx.call("circumcenter", geom.circumcenter, *[V(p) for p in perm])
+        ok, cc = gcall(ctx, "circumcenter", geom.circumcenter, *[V(p) for p in perm])
         if not ok:
             continue
         cv = vec_of(cc, 3)
@@ -757,7 +850,9 @@ def angle_case(draw):
     V1 = draw(v3)
     how = draw(st.sampled_from(["free"] * 7 + ["parallel", "anti", "zero"]))
     V2 = {"parallel": [2.0 * x for x in V1], "anti": [-1.0 * x for x in V1], "zero": [0.0] * 3}.get(how) or draw(v3)
-    return {"mode": mode, "V1": V1, "V2": V2, "N": draw(v3), "tri": draw(triangle_st(mode)), "u": draw(v2), "w": draw(v2)}
+    s = draw(st.sampled_from(SCALES))                 # every angle is scale invariant
+    return {"mode": mode, "V1": scaled(V1, s), "V2": scaled(V2, s), "N": draw(v3), "tri": scaled(draw(triangle_st(mode)), s),
+            "u": scaled(draw(v2), s), "w": scaled(draw(v2), s), "scale": s, "ityped": draw(st.integers(0, 3)) == 0}
 
 
 def kahan_angle(u, w):
@@ -771,8 +866,11 @@ def fn_angle(case, ctx):
     from mouette import geometry as geom
     from mouette.geometry import Vec
     from mouette.utils.maths import principal_angle
-    ctx.label("mode=" + case["mode"])
-    V = lambda v: Vec([float(x) for x in v])
+    ctx.label("mode=" + case["mode"], "scale=%g" % case.get("scale", 1.0))
+    ityped = bool(case.get("ityped"))
+    V = lambda v: make(v, "ivec" if ityped else "vec")
+    if ityped and all(float(x) == int(x) and abs(x) <= 4096 for x in case["V1"] + case["V2"]):
+        ctx.label("vectors=int-typed")
     V1, V2, N = case["V1"], case["V2"], case["N"]
     f1, f2, fN = fv(V1), fv(V2), fv(N)
     A, B, C = case["tri"]
@@ -784,20 +882,20 @@ def fn_angle(case, ctx):
         return g if ctx.check(g is not None and lo <= g <= hi, sig, f"{what} = {x!r} not in [{lo},{hi}]") else None
 
     # ---- universal: range and symmetry, every input (also degenerate)
-    ok, t = ctx.call("angle_3pts", geom.angle_3pts, V(A), V(B), V(C))
-    ok2, t2 = ctx.call("angle_3pts", geom.angle_3pts, V(C), V(B), V(A))
+    ok, t = gcall(ctx, "angle_3pts", geom.angle_3pts, V(A), V(B), V(C))
+    ok2, t2 = gcall(ctx, "angle_3pts", geom.angle_3pts, V(C), V(B), V(A))
     if ok and ok2:
         g, g2 = in_range("angle_3pts:range", t, 0.0, PI, f"angle_3pts({A},{B},{C})"), in_range("angle_3pts:range", t2, 0.0, PI, f"angle_3pts({C},{B},{A})")
         if g is not None and g2 is not None:
             ctx.check(abs(g - g2) <= 1e-12, "angle_3pts:symmetric", f"angle_3pts({A},{B},{C}) = {g!r} but angle_3pts({C},{B},{A}) = {g2!r}")
-    ok, a3 = ctx.call("angle_2vec3D", geom.angle_2vec3D, V(V1), V(V2))
-    ok2, a3b = ctx.call("angle_2vec3D", geom.angle_2vec3D, V(V2), V(V1))
+    ok, a3 = gcall(ctx, "angle_2vec3D", geom.angle_2vec3D, V(V1), V(V2))
+    ok2, a3b = gcall(ctx, "angle_2vec3D", geom.angle_2vec3D, V(V2), V(V1))
     if ok and ok2:
         g, g2 = in_range("angle_2vec3D:range", a3, 0.0, PI, f"angle_2vec3D({V1},{V2})"), in_range("angle_2vec3D:range", a3b, 0.0, PI, f"angle_2vec3D({V2},{V1})")
         if g is not None and g2 is not None:
             ctx.check(abs(g - g2) <= 1e-12, "angle_2vec3D:symmetric", f"angle_2vec3D({V1},{V2}) = {g!r}, swapped {g2!r}")
-    ok, s12 = ctx.call("signed_angle_2vec3D", geom.signed_angle_2vec3D, V(V1), V(V2), V(N))
-    ok2, s21 = ctx.call("signed_angle_2vec3D", geom.signed_angle_2vec3D, V(V2), V(V1), V(N))
+    ok, s12 = gcall(ctx, "signed_angle_2vec3D", geom.signed_angle_2vec3D, V(V1), V(V2), V(N))
+    ok2, s21 = gcall(ctx, "signed_angle_2vec3D", geom.signed_angle_2vec3D, V(V2), V(V1), V(N))
     gs12 = gs21 = None
     if ok and ok2:
         gs12 = in_range("signed_angle_2vec3D:range", s12, -PI, PI, f"signed_angle_2vec3D({V1},{V2},{N})")
@@ -805,7 +903,7 @@ def fn_angle(case, ctx):
     # ---- values on well-conditioned inputs
     n1, n2 = fdot(f1, f1), fdot(f2, f2)
     S = fcross(f1, f2)
-    if n1 > 0 and n2 > 0 and float(n1) >= 1e-8 and float(n2) >= 1e-8:
+    if n1 > 0 and n2 > 0:
         ref = kahan_angle(V1, V2)
         g = real(a3) if ok else None
         if g is not None:
@@ -820,14 +918,14 @@ def fn_angle(case, ctx):
                       f"signed_angle_2vec3D({V1},{V2},{N}) = {gs12!r}, swapped = {gs21!r}")
             ctx.check(abs(abs(gs12) - ref) <= 1e-9 and (gs12 > 0) == (sn > 0), "signed_angle_2vec3D:value",
                       f"signed_angle_2vec3D({V1},{V2},{N}) = {gs12!r}, unsigned angle {ref!r}, (V1xV2).N = {float(sn)!r}")
-            ok, sflip = ctx.call("signed_angle_2vec3D", geom.signed_angle_2vec3D, V(V1), V(V2), V([-x for x in N]))
+            ok, sflip = gcall(ctx, "signed_angle_2vec3D", geom.signed_angle_2vec3D, V(V1), V(V2), V([-x for x in N]))
             if ok and real(sflip) is not None:
                 ctx.check(abs(real(sflip) + gs12) <= 1e-12, "signed_angle_2vec3D:normal-flip", f"flipping N does not negate the angle: {gs12!r} vs {sflip!r}")
     else:
         ctx.label("signed=zero-vector")
     # signed_angle_3pts == signed_angle_2vec3D on the differences
-    ok, s3 = ctx.call("signed_angle_3pts", geom.signed_angle_3pts, V(A), V(B), V(C), V(N))
-    ok2, s3r = ctx.call("signed_angle_2vec3D", geom.signed_angle_2vec3D, V(A) - V(B), V(C) - V(B), V(N))
+    ok, s3 = gcall(ctx, "signed_angle_3pts", geom.signed_angle_3pts, V(A), V(B), V(C), V(N))
+    ok2, s3r = gcall(ctx, "signed_angle_2vec3D", geom.signed_angle_2vec3D, V(A) - V(B), V(C) - V(B), V(N))
     if ok and ok2 and real(s3) is not None and real(s3r) is not None:
         ctx.check(real(s3) == real(s3r), "signed_angle_3pts", f"signed_angle_3pts({A},{B},{C},{N}) = {s3!r} != signed_angle_2vec3D(A-B,C-B,N) = {s3r!r}")
         in_range("signed_angle_3pts:range", s3, -PI, PI, "signed_angle_3pts")
@@ -835,7 +933,7 @@ def fn_angle(case, ctx):
     BA, BC = fsub(fA, fB), fsub(fC, fB)
     nBA, nBC = fdot(BA, BA), fdot(BC, BC)
     crB = fcross(BA, BC)
-    if nBA > 0 and nBC > 0 and float(min(nBA, nBC)) >= 1e-8 and float(max(abs(x) for x in fB)) <= 1e3 * fsqrt(min(nBA, nBC)):
+    if nBA > 0 and nBC > 0 and float(max(abs(x) for x in fB)) <= 1e3 * fsqrt(min(nBA, nBC)):
         sin2 = fdot(crB, crB) / (nBA * nBC)
         ref = kahan_angle([float(x) for x in BA], [float(x) for x in BC])
         g = real(t) if t is not None else None
@@ -844,7 +942,7 @@ def fn_angle(case, ctx):
         if sin2 >= Fr(1, 10 ** 4):                      # angle in [0.01, pi - 0.01]
             ctx.label("corner=generic")
             ctx.nontrivial()
-            ok, ct = ctx.call("cotan", geom.cotan, V(A), V(B), V(C))
+            ok, ct = gcall(ctx, "cotan", geom.cotan, V(A), V(B), V(C))
             if ok:
                 gc = real(ct)
                 cref = float(fdot(BA, BC)) / fsqrt(fdot(crB, crB))
@@ -859,19 +957,19 @@ def fn_angle(case, ctx):
     # ---- 2D
     u, w = case["u"], case["w"]
     fu, fw = fv(u), fv(w)
-    ok, a2 = ctx.call("angle_2vec2D", geom.angle_2vec2D, V(u), V(w))
-    ok2, a2b = ctx.call("angle_2vec2D", geom.angle_2vec2D, V(w), V(u))
+    ok, a2 = gcall(ctx, "angle_2vec2D", geom.angle_2vec2D, V(u), V(w))
+    ok2, a2b = gcall(ctx, "angle_2vec2D", geom.angle_2vec2D, V(w), V(u))
     if ok and ok2:
         g, g2 = real(a2), real(a2b)
         if ctx.check(g is not None and g2 is not None, "angle_2vec2D:type", f"{a2!r}, {a2b!r}"):
             ctx.check(g == -g2 or (g == 0 and g2 == 0), "angle_2vec2D:antisymmetric", f"angle_2vec2D({u},{w}) = {g!r}, swapped {g2!r}")
-            if float(fdot(fu, fu)) >= 1e-8 and float(fdot(fw, fw)) >= 1e-8:
+            if fdot(fu, fu) > 0 and fdot(fw, fw) > 0:
                 ref = math.atan2(float(fdet2(fu, fw)), float(fdot(fu, fw)))
                 k = round((g - ref) / (2 * PI))
                 ctx.check(abs(g - ref - 2 * PI * k) <= 1e-9, "angle_2vec2D:value", f"angle_2vec2D({u},{w}) = {g!r}, signed angle {ref!r} (mod 2pi)")
                 # consistent with the 3D signed angle about +Z, off the degenerate set (parallel vectors)
                 if fdet2(fu, fw) ** 2 >= Fr(1, 10 ** 8) * fdot(fu, fu) * fdot(fw, fw):
-                    ok, s = ctx.call("signed_angle_2vec3D", geom.signed_angle_2vec3D, V(u + [0.0]), V(w + [0.0]), Vec(0., 0., 1.))
+                    ok, s = gcall(ctx, "signed_angle_2vec3D", geom.signed_angle_2vec3D, V(u + [0.0]), V(w + [0.0]), Vec(0., 0., 1.))
                     if ok and real(s) is not None:
                         ctx.check(abs(principal_angle(g) - real(s)) <= 1e-9, "angle_2vec2D:vs-3D", f"angle_2vec2D({u},{w}) = {g!r} but signed 3D angle about Z = {s!r}")
 
@@ -914,7 +1012,7 @@ def fn_rotation(case, ctx):
     s2 = max(1.0, abs(z))
     res = {}
     for nm, ang, src in (("a", a, v2), ("0", 0.0, v2), ("a+b", a + b, v2)):
-        ok, r = ctx.call("rotate_2d", rot.rotate_2d, make(src, form), ang)
+        ok, r = gcall(ctx, "rotate_2d", rot.rotate_2d, make(src, form), ang)
         if ok:
             rvv = vec_of(r, 2)
             if ctx.check(rvv is not None and isinstance(r, Vec), "rotate_2d:type", f"rotate_2d({src},{ang}) = {r!r}"):
@@ -923,7 +1021,7 @@ def fn_rotation(case, ctx):
                 ctx.check(abs(float(np.linalg.norm(rvv)) - abs(z)) <= 1e-12 * s2, "rotate_2d:isometry", f"|rotate_2d({src},{ang})| = {np.linalg.norm(rvv)!r}, |v| = {abs(z)!r}")
                 res[nm] = r
     if "a" in res and "a+b" in res:
-        ok, r = ctx.call("rotate_2d", rot.rotate_2d, res["a"], b)
+        ok, r = gcall(ctx, "rotate_2d", rot.rotate_2d, res["a"], b)
         if ok and vec_of(r, 2) is not None:
             ctx.check(bool(np.all(np.abs(vec_of(r, 2) - vec_of(res["a+b"], 2)) <= 1e-10 * s2 * (1 + abs(a) + abs(b)))), "rotate_2d:additive",
                       f"rotate_2d(rotate_2d({v2},{a}),{b}) = {r!r} but rotate_2d({v2},{a + b}) = {res['a+b']!r}")
@@ -937,7 +1035,7 @@ def fn_rotation(case, ctx):
         ctx.nontrivial(abs(a) > 1e-6)
 
         def R(x, ang):
-            ok, r = ctx.call("rotate_around_axis", rot.rotate_around_axis, make(list(x), form) if not isinstance(x, np.ndarray) else x, make(axis, form), ang)
+            ok, r = gcall(ctx, "rotate_around_axis", rot.rotate_around_axis, make(list(x), form) if not isinstance(x, np.ndarray) else x, make(axis, form), ang)
             if not ok:
                 return None
             rvv = vec_of(r, 3)
@@ -971,7 +1069,7 @@ def fn_rotation(case, ctx):
         d = nax / nrm
         anti = d[2] < 0 and math.hypot(d[0], d[1]) <= 1e-6
         ctx.label("from_z=antiparallel" if anti else "from_z=parallel" if math.hypot(d[0], d[1]) <= 1e-6 else "from_z=generic")
-        ok, r = ctx.call("axis_rot_from_z", rot.axis_rot_from_z, make(axis, "vec" if form in ("list", "tuple") else form))
+        ok, r = gcall(ctx, "axis_rot_from_z", rot.axis_rot_from_z, make(axis, {"list": "vec", "tuple": "vec", "ilist": "ivec", "ituple": "ivec"}.get(form, form)))
         if ok:
             rvv = vec_of(r, 3)
             if ctx.check(rvv is not None, "axis_rot_from_z:type", f"axis_rot_from_z({axis}) = {r!r}") and not anti:
@@ -982,7 +1080,7 @@ def fn_rotation(case, ctx):
 
     # ---- match_rotation: minimal rotation from Ra to s(Rb), s in the octahedral group
     Ra, Rb = Rotation.from_rotvec(case["Ra"]), Rotation.from_rotvec(case["Rb"])
-    ok, m = ctx.call("match_rotation", rot.match_rotation, Ra, Rb)
+    ok, m = gcall(ctx, "match_rotation", rot.match_rotation, Ra, Rb)
     if ok and ctx.check(isinstance(m, Rotation), "match_rotation:type", f"{m!r}"):
         G = Rotation.create_group("O")
         cands = [Rb * S * Ra.inv() for S in G]
@@ -1011,15 +1109,15 @@ def fn_maths(case, ctx):
         k = round((x - r) / (2 * PI))
         return abs(x - r - 2 * PI * k) <= 1e-12 * max(1.0, abs(x)) * 4
 
-    ok, r = ctx.call("principal_angle", maths.principal_angle, a)
+    ok, r = gcall(ctx, "principal_angle", maths.principal_angle, a)
     if ok:
         g = real(r)
         if ctx.check(g is not None and -PI <= g <= PI, "principal_angle:range", f"principal_angle({a!r}) = {r!r} not in [-pi,pi]"):
             ctx.check(congruent(g, a), "principal_angle:congruent", f"principal_angle({a!r}) = {g!r} is not congruent to the input mod 2pi")
-            ok, r2 = ctx.call("principal_angle", maths.principal_angle, g)
+            ok, r2 = gcall(ctx, "principal_angle", maths.principal_angle, g)
             if ok:
                 ctx.check(real(r2) is not None and (abs(real(r2) - g) <= 1e-12 or abs(abs(real(r2) - g) - 2 * PI) <= 1e-12), "principal_angle:idempotent", f"principal_angle({g!r}) = {r2!r}")
-    ok, r = ctx.call("angle_diff", maths.angle_diff, a, b)
+    ok, r = gcall(ctx, "angle_diff", maths.angle_diff, a, b)
     if ok:
         g = real(r)
         if ctx.check(g is not None and -PI <= g <= PI, "angle_diff:range", f"angle_diff({a!r},{b!r}) = {r!r} not in [-pi,pi]"):
@@ -1031,7 +1129,7 @@ def fn_maths(case, ctx):
     if abs(c) >= 1e-6:
         ctx.nontrivial()
         for normalize in (True, False):
-            ok, rs = ctx.call("roots", maths.roots, c, n, normalize)
+            ok, rs = gcall(ctx, "roots", maths.roots, c, n, normalize)
             if ok and ctx.check(isinstance(rs, list) and len(rs) == n and all(isinstance(x, complex) for x in rs), "roots:type", f"roots({c},{n},{normalize}) = {rs!r}"):
                 target = c / abs(c) if normalize else c
                 for x in rs:
@@ -1044,7 +1142,7 @@ def fn_maths(case, ctx):
         ctx.label("roots=zero-input")
     # ---- quadratic (integer coefficients: the discriminant is exact)
     A, B, C = case["quad"]
-    ok, rs = ctx.call("solve_quadratic", maths.solve_quadratic, A, B, C)
+    ok, rs = gcall(ctx, "solve_quadratic", maths.solve_quadratic, A, B, C)
     if ok and ctx.check(isinstance(rs, list) and all(real(x) is not None for x in rs), "solve_quadratic:type", f"{rs!r}"):
         delta = B * B - 4 * A * C
         expected = (0 if B == 0 else 1) if A == 0 else (0 if delta < 0 else 1 if delta == 0 else 2)
@@ -1053,7 +1151,7 @@ def fn_maths(case, ctx):
         for x in rs:
             ctx.check(abs(A * x * x + B * x + C) <= 1e-12 * (abs(A) * x * x + abs(B * x) + abs(C) + 1), "solve_quadratic:root", f"solve_quadratic({A},{B},{C}) contains {x!r}, residual {A * x * x + B * x + C!r}")
     A, B, C = case["quadf"]
-    ok, rs = ctx.call("solve_quadratic", maths.solve_quadratic, A, B, C)
+    ok, rs = gcall(ctx, "solve_quadratic", maths.solve_quadratic, A, B, C)
     if ok and isinstance(rs, list) and abs(A) >= 1e-3:
         delta = F(B) * F(B) - 4 * F(A) * F(C)
         m = float(F(B) * F(B) + abs(4 * F(A) * F(C)))
